@@ -21,7 +21,7 @@ def run(ctx, factor):
         ref = "@ref"
         refdef = {"name": ref, "pattern": [g.pick(["pop", {"sub": ["rcx"]}])] if g.chance(0.5) else "xor"}
         pos = g.pick(["list-item", "operand", "dict-value", "key-with-operands", "key-with-times", "in-macro-body",
-                      "embedded-in-operand", "embedded-in-mnemonic", "embedded-in-dict-value"])
+                      "embedded-in-operand", "embedded-in-mnemonic", "embedded-in-dict-value", "in-macro-argument"])
         if pos.startswith("embedded"):
             refdef = {"name": ref, "pattern": g.pick(["ax", "orq", "r8"])}      # only string macros can sit inside a name
         macros = [copy.deepcopy(d) for d in defs[: g.int(1, 2)]]
@@ -38,6 +38,11 @@ def run(ctx, factor):
             pat.insert(g.int(0, len(pat)), g.pick(["x", "mov"]) + ref)
         elif pos == "embedded-in-dict-value":
             pat.insert(g.int(0, len(pat)), {"mov": [{"$deref": {"main_reg": "%" + ref}}]})
+        elif pos == "in-macro-argument":
+            # the reference is the ARGUMENT of a parameterised macro call: it lands in the tree when that macro is expanded
+            macros.insert(g.int(0, len(macros)), {"name": "@pm", "args": ["macro-arg"], "pattern": [{"mov": ["macro-arg", "rbx"]}]})
+            pat.insert(g.int(0, len(pat)), g.pick([{"@pm": {"macro-arg": ref}}, {"@pm": None, "macro-arg": ref}]))
+            refdef = {"name": ref, "pattern": g.pick(["rcx", "r9"])}
         elif pos == "key-with-operands":
             pat.insert(g.int(0, len(pat)), {ref: ["rax"]})
         elif pos == "key-with-times":
